@@ -22,7 +22,7 @@ import (
 // repoDir / verifDir: the registered checks always use /repo and /verif. VERIF_REPO and VERIF_OUT exist only for
 // experiments (seeded-change matrix in a scratch worktree); with VERIF_OUT set, evidence and counterexamples go there.
 var repoDir = envOr("VERIF_REPO", "/repo")
-var verifDir = "/verif"
+var verifDir = envOr("VERIF_HOME", "/verif") // VERIF_HOME: harness development in a scratch copy
 var outDir = envOr("VERIF_OUT", "/verif")
 
 func envOr(k, d string) string {
